@@ -970,18 +970,31 @@ theorem optimizePool_at_most_k_in_flight (k : Nat) (n : Option Nat) (es : List E
   exact Nat.le_trans (List.Nodup.length_le_of_subset hnd hsub) hi.size
 
 open Pool in
-/-- Never more than `n_trials` futures are submitted; and if `optimize` returns without
-`study.stop()` ever having been called, exactly `n_trials` were. -/
+/-- Never more than `n_trials` futures are submitted; and if `optimize` returns without `study.stop()`
+ever having been called and without the main thread having seen the `timeout` elapse (stop-free,
+timeout-free return), exactly `n_trials` were. -/
 theorem optimizePool_submits_exactly_n (k : Nat) (m : Nat) (es : List Event) (s : State)
     (h : run k (some m) init es = some s) :
-    s.submitted ≤ m ∧ (s.phase = .exited .ok → s.stop = false → s.submitted = m) := by
+    s.submitted ≤ m ∧
+      (s.phase = .exited .ok → s.stop = false → s.timedOut = false → s.submitted = m) := by
   have hi := inv_run k (some m) init s es (inv_init k (some m)) h
   refine ⟨hi.quota m rfl, ?_⟩
-  intro hx hs
-  rcases hi.drained_why (Or.inr hx) with h1 | h1
+  intro hx hs ht
+  rcases hi.drained_why (Or.inr hx) with h1 | h1 | h1
   · rw [hs] at h1; cases h1
   · simp only [quotaReached, decide_eq_true_eq] at h1
     exact Nat.le_antisymm (hi.quota m rfl) h1
+  · rw [ht] at h1; cases h1
+
+open Pool in
+/-- the `timeout` break: the submit loop ends after one of two trials, nothing stopped it, `optimize`
+returns — and the count conjunct above does not (and must not) apply -/
+example : ∃ s, run 2 (some 2) init [.submit, .begin 0, .finish 0 .ok, .timeout, .waitAll, .exit .ok] = some s ∧
+    s.phase = .exited .ok ∧ s.stop = false ∧ s.timedOut = true ∧ s.submitted = 1 := ⟨_, rfl, rfl, rfl, rfl, rfl⟩
+
+open Pool in
+/-- without a clock reading that says so, the loop cannot be left early -/
+example : run 2 (some 2) init [.submit, .begin 0, .finish 0 .ok, .waitAll] = none := rfl
 
 /-! ## 5. Tie to the source text
 
